@@ -6,10 +6,12 @@ import (
 	"go/ast"
 	"go/format"
 	"go/parser"
+	"go/printer"
 	"go/token"
 	"os"
 	"os/exec"
 	"path/filepath"
+	"reflect"
 	"strconv"
 	"strings"
 )
@@ -202,8 +204,9 @@ func rewriteFile(path string) (bool, []byte, []string, error) {
 		ast.Inspect(n, func(x ast.Node) bool {
 			switch t := x.(type) {
 			case *ast.SelectStmt:
-				// the communication clauses of a select are not rewritten (reported); their bodies are
-				notes = append(notes, fmt.Sprintf("select statement at %s: communication clauses left untouched", fset.Position(t.Pos())))
+				// a select with a default clause never blocks: left as it is (its bodies are instrumented); blocking
+				// selects have been replaced by rewriteStmtList before this walk
+				notes = append(notes, fmt.Sprintf("select statement with default at %s: left untouched", fset.Position(t.Pos())))
 			case *ast.CallExpr:
 				if sel, ok := t.Fun.(*ast.SelectorExpr); ok {
 					if id, ok := sel.X.(*ast.Ident); ok {
@@ -248,6 +251,20 @@ func rewriteFile(path string) (bool, []byte, []string, error) {
 	rewriteStmtList = func(list []ast.Stmt) []ast.Stmt {
 		for i, st := range list {
 			switch t := st.(type) {
+			case *ast.LabeledStmt:
+				if sel, ok := t.Stmt.(*ast.SelectStmt); ok {
+					if repl := rewriteSelect(fset, sel, &tmp); repl != nil {
+						needVsync, changed = true, true
+						notes = append(notes, fmt.Sprintf("blocking select at %s -> vsync.Select", fset.Position(sel.Pos())))
+						t.Stmt = repl
+					}
+				}
+			case *ast.SelectStmt:
+				if repl := rewriteSelect(fset, t, &tmp); repl != nil {
+					needVsync, changed = true, true
+					notes = append(notes, fmt.Sprintf("blocking select at %s -> vsync.Select", fset.Position(t.Pos())))
+					list[i] = repl
+				}
 			case *ast.GoStmt:
 				needVsync, changed = true, true
 				notes = append(notes, fmt.Sprintf("go statement at %s -> vsync.Go", fset.Position(t.Pos())))
@@ -346,4 +363,113 @@ func rewriteFile(path string) (bool, []byte, []string, error) {
 		return false, nil, notes, err
 	}
 	return true, buf.Bytes(), notes, nil
+}
+
+// rewriteSelect replaces a select statement WITHOUT a default clause by
+//
+//	{ c0 := <chan0>; ...; i, v, ok := vsync.Select(vsync.RecvCase(c0), vsync.SendCase(c1, x1), ...); switch i { case 0: <assignment from v, ok>; <body> ... } }
+//
+// so that waiting in it is a scheduling decision of the controlled scheduler. Returns nil for a select that has a default
+// clause (it never blocks) or a shape that is not understood (left as it is).
+func rewriteSelect(fset *token.FileSet, sel *ast.SelectStmt, tmp *int) ast.Stmt {
+	render := func(n ast.Node) string {
+		var b bytes.Buffer
+		_ = printer.Fprint(&b, fset, n)
+		return b.String()
+	}
+	*tmp++
+	n := *tmp
+	var pre, cases, arms []string
+	for k, cl := range sel.Body.List {
+		cc := cl.(*ast.CommClause)
+		if cc.Comm == nil {
+			return nil // default clause
+		}
+		ch := fmt.Sprintf("verifSelC%d_%d", n, k)
+		assign := ""
+		switch c := cc.Comm.(type) {
+		case *ast.ExprStmt:
+			u, ok := c.X.(*ast.UnaryExpr)
+			if !ok || u.Op != token.ARROW {
+				return nil
+			}
+			pre = append(pre, fmt.Sprintf("%s := %s", ch, render(u.X)))
+			cases = append(cases, fmt.Sprintf("vsync.RecvCase(%s)", ch))
+		case *ast.AssignStmt:
+			if len(c.Rhs) != 1 {
+				return nil
+			}
+			u, ok := c.Rhs[0].(*ast.UnaryExpr)
+			if !ok || u.Op != token.ARROW {
+				return nil
+			}
+			pre = append(pre, fmt.Sprintf("%s := %s", ch, render(u.X)))
+			cases = append(cases, fmt.Sprintf("vsync.RecvCase(%s)", ch))
+			var lhs []string
+			for _, l := range c.Lhs {
+				lhs = append(lhs, render(l))
+			}
+			rhs := fmt.Sprintf("vsync.SelVal(%s, verifSelV%d)", ch, n)
+			if len(lhs) == 2 {
+				rhs += fmt.Sprintf(", verifSelOK%d", n)
+			}
+			assign = strings.Join(lhs, ", ") + " " + c.Tok.String() + " " + rhs
+		case *ast.SendStmt:
+			x := fmt.Sprintf("verifSelX%d_%d", n, k)
+			pre = append(pre, fmt.Sprintf("%s := %s", ch, render(c.Chan)), fmt.Sprintf("%s := %s", x, render(c.Value)))
+			cases = append(cases, fmt.Sprintf("vsync.SendCase(%s, %s)", ch, x))
+		default:
+			return nil
+		}
+		arm := fmt.Sprintf("case %d:\n", k)
+		if assign != "" {
+			arm += assign + "\n"
+		}
+		for _, st := range cc.Body {
+			arm += render(st) + "\n"
+		}
+		arms = append(arms, arm)
+	}
+	src := "package p\nfunc _() {\n{\n" + strings.Join(pre, "\n") + "\n" +
+		fmt.Sprintf("verifSelI%d, verifSelV%d, verifSelOK%d := vsync.Select(%s)\n_, _ = verifSelV%d, verifSelOK%d\nswitch verifSelI%d {\n%s}\n}\n}\n",
+			n, n, n, strings.Join(cases, ", "), n, n, n, strings.Join(arms, ""))
+	pf, err := parser.ParseFile(token.NewFileSet(), "", src, 0)
+	if err != nil {
+		return nil
+	}
+	block := pf.Decls[0].(*ast.FuncDecl).Body.List[0]
+	clearPositions(block)
+	return block
+}
+
+// clearPositions sets every token.Pos inside the node to NoPos (the node was parsed from generated text; positions of
+// another file set would confuse the printer's comment placement).
+func clearPositions(n ast.Node) {
+	posType := reflect.TypeOf(token.NoPos)
+	ast.Inspect(n, func(x ast.Node) bool {
+		if x == nil {
+			return false
+		}
+		v := reflect.ValueOf(x)
+		if v.Kind() == reflect.Ptr {
+			v = v.Elem()
+		}
+		if v.Kind() == reflect.Struct {
+			for i := 0; i < v.NumField(); i++ {
+				f := v.Field(i)
+				name := v.Type().Field(i).Name
+				// positions that carry meaning stay: f(xs...) / type A = B / grouped declarations
+				if name == "Ellipsis" || name == "Assign" {
+					continue
+				}
+				if _, isDecl := x.(*ast.GenDecl); isDecl && (name == "Lparen" || name == "Rparen") {
+					continue
+				}
+				if f.Type() == posType && f.CanSet() {
+					f.SetInt(0)
+				}
+			}
+		}
+		return true
+	})
 }
